@@ -219,7 +219,9 @@ def alphabet(tier="quick", family="all"):
             ("repair",)]
     # 5 identifiers
     ops += [("set_id", "rxn", "r1", "r1x"), ("set_id", "rxn", "r1", "r2"),
-            ("set_id", "met", "A", "Ax"), ("set_id", "met", "A", "B")]
+            ("set_id", "met", "A", "Ax"), ("set_id", "met", "A", "B"),
+            # ids that cobra accepts but the solver interface refuses as a name
+            ("set_id", "rxn", "r1", "r 1"), ("set_id", "met", "A", "A prime")]
     # 6 objective
     ops += [("objective", ("id", "r1")), ("objective", ("obj", "r2")),
             ("objective", ("dict", (("r1", 1), ("r2", 2)))), ("objective", ("id", "nope")),
